@@ -363,9 +363,35 @@ def variants(rng, A: DFA):
     return out
 
 
+def none_row_corpus(ctx: Ctx):
+    """Triggers of the repaired defect behind /repo f47420f: a transition row keyed by None (rows keyed by
+    non-states pass validation in general).  The definition must be refused now; if a tree accepts it, the
+    comparisons / isempty / isfinite are evaluated on it like on any other valid DFA (the unrepaired code
+    raised ValueError 'None cannot be a node' in isfinite)."""
+    defs = [dict(states={0}, input_symbols={"a"}, transitions={0: {"a": 0}, None: {"a": 0}}, initial_state=0,
+                 final_states={0}),
+            dict(states={0, 1}, input_symbols={"a", "b"}, transitions={0: {"a": 1}, 1: {}, None: {}}, initial_state=0,
+                 final_states={1}, allow_partial=True)]
+    for kw in defs:
+        ctx.stat("corpus_none_row")
+        try:
+            d = DFA(**kw)
+        except Exception as e:  # noqa: BLE001
+            ctx.case(None)
+            if type(e).__name__ != "InvalidStateError":
+                ctx.prop_fail(f"a DFA definition with a transition row keyed by None raised {type(e).__name__} "
+                              f"instead of InvalidStateError", dict(op="none_row", definition=repr(kw)))
+            else:
+                ctx.stat("corpus_none_row_refused")
+            continue
+        do_emptyfin(ctx, d, "corpus_none_row_accepted")
+        do_cmp(ctx, d, d.copy(), "corpus_none_row_accepted")
+
+
 def run(ctx: Ctx):
     rng = ctx.rng
     probe_temporaries(ctx)
+    none_row_corpus(ctx)
     ea = empty_alphabet_dfas()
     for a in ea:
         do_emptyfin(ctx, a, "empty_alphabet")
@@ -427,6 +453,14 @@ def replay(ctx: Ctx, path: str) -> int:
     data = json.load(open(path))
     rp = data.get("replay", data)
     env = {"DFA": DFA, "frozenset": frozenset}
+    if rp["op"] == "none_row":
+        none_row_corpus(ctx)
+        if ctx.prop_fails:
+            print(f"VIOLATION property=C06 replay={path}")
+            print("  " + ctx.prop_fails[0]["what"])
+            return 1
+        print("replay: property holds on this input now")
+        return 0
     if rp["op"] == "temporary":
         probe_temporaries(ctx)
         hits = [f for f in ctx.prop_fails if f["replay"].get("text") == rp["text"]] or ctx.prop_fails
